@@ -226,6 +226,8 @@ int _factor_lehman_method(integer_class &rop, const integer_class &n)
 
         while (k <= u_bound) {
             a = mp_sqrt(4 * k * n);
+            if (a * a < 4 * k * n)
+                a = a + 1; // a must be the ceiling of sqrt(4kn)
             mp_root(b, n, 6);
             mp_root(l, k, 2);
             b = b / (4 * l);
@@ -302,9 +304,15 @@ int factor_pollard_pm1_method(const Ptr<RCP<const Integer>> &f,
 
     mp_randstate state;
     nm4 = n.as_integer_class() - 4;
+    if (nm4 < 0)
+        throw SymEngineException(
+            "Require n > 3 and B > 2 to use Pollard's p-1 method");
 
     for (unsigned i = 0; i < retries and ret_val == 0; ++i) {
-        state.urandomint(c, nm4);
+        if (nm4 == 0)
+            c = 0; // n == 4: urandomint needs a positive bound
+        else
+            state.urandomint(c, nm4);
         c += 2;
         ret_val = _factor_pollard_pm1_method(rop, n.as_integer_class(), c, B);
     }
@@ -354,6 +362,8 @@ int factor_pollard_rho_method(const Ptr<RCP<const Integer>> &f,
     mp_randstate state;
     nm1 = n.as_integer_class() - 1;
     nm4 = n.as_integer_class() - 4;
+    if (nm4 < 1)
+        throw SymEngineException("Require n > 4 to use pollard's-rho method");
 
     for (unsigned i = 0; i < retries and ret_val == 0; ++i) {
         state.urandomint(a, nm1);
